@@ -244,6 +244,11 @@ def run_sequence(ctx, case):
             elif kind == "idx":
                 m = int(rng.integers(0, 2 * n + 1)) if rng.random() < 0.9 else 0
                 sel = rng.integers(0, n, m).tolist()  # out of order, with repeats
+                if n >= 4 and rng.random() < 0.35:
+                    # index arrays that LOOK like a run of consecutive rows from their end points (last - first = length - 1) but are
+                    # out of order or hold repeats, and true consecutive runs
+                    a0 = int(rng.integers(0, n - 3))
+                    sel = [[a0, a0 + 2, a0 + 1, a0 + 3], [a0, a0, a0 + 3, a0 + 3], [a0, a0 + 1, a0 + 2, a0 + 3], [a0 + 3, a0 + 1, a0 + 2, a0]][int(rng.integers(0, 4))]
                 arg = np.array(sel, dtype=int)
                 opk = f"OIdx {coq_list([f'{NAMES.index(c)}%nat' for c in cols])} {coq_list([f'{i}%nat' for i in sel])}"
             else:
